@@ -25,6 +25,8 @@ func init() {
 }
 
 func runC02(c *Ctx) {
+	c.Rule("C02.R15", "frozen lockset: the HTTP/2 stream-id tables and the HTTP/1 server connection's current stream are only touched under their mutex", 10)
+	defer runLockTables(c, "C02", nil)
 	c.Rule("C02.R1", "stream id restored on the frame before Encode", 2)
 	c.Rule("C02.R2", "client stream table only under clientMutex", 6)
 	c.Rule("C02.R3", "response consumed once: delete-before-dispatch with the lookup key; unknown ids dropped", 5)
